@@ -2,11 +2,12 @@
 # witness for C02 / U-GOPKGS: Go rejects a file that imports a package it never refers to, and one that refers to a package it does not import.
 # Three programs (no output at all; an extern "go" function called only from unreachable code; a control that prints) are compiled with
 # `run --dump-go`; every imported package must occur as `<name>.` in the emitted code and every `fmt.` / `strings.` use must be imported.
+#   alias_only: an extern type whose functions are never called (`type Time = time.Time` needs the import; fix cec87b0)
 # exit 1 when an emitted file breaks the rule.   usage: unused_import.sh [compiler]
 BIN=${1:-/repo/target/debug/compiler}
 D=$(cd "$(dirname "$0")/unused_import" && pwd)
 st=0
-for c in no_output dead_extern_caller control_printing; do
+for c in no_output dead_extern_caller control_printing alias_only; do
   go=$("$BIN" run --dump-go "$D/$c/main.gom" 2>/dev/null | sed '1{/^== Go ==$/d}')
   grep -q '^package main$' <<<"$go" || { echo "$c: no Go emitted"; continue; }
   imports=$(awk '/^import \($/{f=1;next} f&&/^\)$/{f=0} f{gsub(/[" ]/,""); print}' <<<"$go")
@@ -15,7 +16,7 @@ for c in no_output dead_extern_caller control_printing; do
     name="${path##*/}"
     grep -Eq "(^|[^A-Za-z0-9_.])${name}\." <<<"$body" || { echo "WRONG: $c: \"$path\" imported and not used"; st=1; }
   done
-  for name in fmt strings; do
+  for name in fmt strings time; do
     if grep -Eq "(^|[^A-Za-z0-9_.\"])${name}\.[A-Z]" <<<"$body" && ! grep -qx "$name" <<<"$imports"; then echo "WRONG: $c: $name used but not imported"; st=1; fi
   done
 done
